@@ -10,6 +10,43 @@ PROPERTIES = {
             "assumptions": ["inputs beyond the enumerated bound are only sampled", "the trace monitor and its red-zone lookups are themselves correct (validated by seeded mutants, see DESIGN.md)"]},
 }
 
+CAPT_FILES = ["src/common.rs", "src/algorithms/compact.rs", "src/algorithms/replace.rs", "src/algorithms/capture.rs", "src/types.rs"]
+PROPERTIES.update({
+    "C02": {"category": "fault_enumeration",
+            "anchor_files": CAPT_FILES,
+            "technique": "offline op-list checker (left-to-right walk + independent apply/inverse-apply) over captured diffs; virtual-clock fault injection enumerating every deadline-check index",
+            "level_text": "Every captured op list is walked by an independent checker and additionally applied forwards and backwards on real vectors. Inputs: all pairs over 3 letters up to length 5 x 3 algorithms x 3 capture entry points, all sub-ranges of all short pairs, sampled longer pairs; for each, the deadline is made to expire at EVERY deadline check (hook H2 virtual clock) - a fault sequence no test can produce with real time.",
+            "level_note": "Trusts the op-list checker, the virtual clock hook (H2, 10 lines in deadline_support.rs/verif_hooks.rs) and rustc/std. Expiry points are exhaustive only where the number of checks is <= 64, sampled (12 per input) otherwise."},
+    "C03": {"category": "exploration",
+            "anchor_files": ["src/algorithms/myers.rs", "src/algorithms/lcs.rs", "src/algorithms/compact.rs", "src/common.rs"],
+            "technique": "differential check of the observed edit cost (raw callback stream and captured ops) and ratio against an O(NM) LCS dynamic program",
+            "level_text": "Cost of the raw stream and of the captured ops, total Equal length and the f32 ratio are compared with an independent DP on every execution: complete for all pairs over 3 letters up to length 5 (thorough 6) and all sub-ranges of short pairs, sampled up to 150 items. Minimality is a forall-inputs claim with a cheap exact oracle, so differential monitoring is the natural level.",
+            "level_note": "Trusts the 10-line DP reference (lcs_len) and the op-list walk. Patience is excluded by the property itself."},
+    "C09": {"category": "fault_enumeration",
+            "anchor_files": ["src/algorithms/replace.rs", "src/algorithms/compact.rs", "src/common.rs", "src/algorithms/lcs.rs"],
+            "technique": "offline normal-form checker (alternation, non-empty ops, insert-at-latest-position) over captured diffs incl. every deadline expiry point and arbitrary valid scripts pushed through Compact+Replace",
+            "level_text": "Normal form is asserted on every captured op list of the C02 workload (all algorithms, sub-ranges, every expiry point of the virtual clock) and on enumerated/random valid edit scripts driven through Compact<Replace<Capture>>.",
+            "level_note": "Trusts the normal-form checker; validity failures are counted but attributed to C02."},
+    "C11": {"category": "fault_enumeration",
+            "anchor_files": ["src/algorithms/compact.rs", "src/types.rs", "src/algorithms/replace.rs"],
+            "technique": "offline carried-index checker over captured diffs (every expiry point), with hook-based attribution of failures to the listed known finding KF1 (swap-repair switch H3)",
+            "level_text": "Both indices of every captured op are compared with the running item counts. The pinned tree violates this on ~13% of inputs through one site (KF1, see known_findings.json): a failing case is attributed to KF1 only if a swap was observed in that run and the identical run with the H3 repair switch passes; anything else is a VIOLATION.",
+            "level_note": "Verdicts are always taken with the repair switch off. Trusts the checker, hooks H2/H3 and the attribution rule; a defect that manifests only together with a swap AND disappears when the swapped pair's indices are recomputed would be absorbed by KF1."},
+})
+
+PROPERTIES.update({
+    "C08": {"category": "fault_enumeration",
+            "anchor_files": ["src/algorithms/hook.rs", "src/algorithms/replace.rs", "src/algorithms/compact.rs", "src/algorithms/myers.rs", "src/algorithms/patience.rs", "src/algorithms/lcs.rs"],
+            "technique": "recording DiffHook with injected failure at call k; enumeration of EVERY k for every input x 12 adapter stacks (owned and &mut, NoFinishHook nested) x hook with/without replace override; differential comparison of call histories between stacks",
+            "level_text": "For each input and adapter stack a clean run records the call history; then the run is repeated once for every call index k with that call returning Err(k). The monitor asserts: result is exactly Err(k), no call after the failing one, identical prefix, finish exactly once and last (never through NoFinishHook), forwarding wrappers transparent, default replace = delete+insert. Complete for all pairs over 3 letters up to length 4 (thorough 5); adapters are also driven by hand with scripts containing replace calls.",
+            "level_note": "Trusts the recording hook. The fault model is 'a hook call returns an error'; panicking hooks are not modelled."},
+    "C10": {"category": "exploration",
+            "anchor_files": ["src/algorithms/compact.rs", "src/algorithms/replace.rs", "src/types.rs"],
+            "technique": "exhaustive enumeration of ALL valid edit scripts of all short pairs (plus random walks in the edit graph at non-zero offsets behind red-zone lookups) driven through Compact / Replace / Compact+Replace, checked by the offline op-list checker (validity, cost conservation, carried indices, normal form)",
+            "level_text": "The adapters are fed histories that no algorithm of the crate produces: every valid script (split equal runs, interleaved delete/insert runs) of every binary pair up to length 4 (thorough: 5, ternary up to 4 = 24 M scripts) and random scripts of longer pairs. Output must be a valid script of the same pair with the same deleted/inserted totals; Replace alone keeps carried indices exact; both adapters give the C09 normal form.",
+            "level_note": "Trusts the script enumerator (its count is reported in the evidence) and the op-list checker."},
+})
+
 DEFAULT_ASSUMPTIONS = [
     "verdict covers only the executions that were generated (bounded-exhaustive parts are complete within the stated bound; everything else is seeded sampling)",
     "the reference model / oracle written for this property is correct (cross-checked by seeded mutants, see DESIGN.md)",
